@@ -83,6 +83,10 @@ def generate(seed, tier, index):
             steps.append({"op": "rm_criteria", "device": rng.choice([None, "DA", "DB"]), "vector": rng.choice([None, None, "P1"]),
                           "element": rng.choice([None, None, "E1"]), "type": rng.choice([None, None, "Value", "Base"])})
         steps.append({"op": "msg", "spec": s, "style": library_style() if rng.random() < 0.5 else rand_style(rng)})
+        if rng.random() < 0.4:
+            # the next message follows in the same burst (same read / same loop iteration): callbacks that run later - coroutine
+            # callbacks are tasks - get to look at their event when the element has already moved on
+            steps[-1]["burst"] = True
     for st in steps:
         if st["op"] == "msg" and st["style"]["decl"] not in (0, 1):
             st["style"]["decl"] = 1
@@ -228,7 +232,10 @@ def execute(scen):
                     world.send(spec, st["style"])
                 else:
                     sim.do(world.send, spec, st["style"], False)
-                sim.settle()
+                if st.get("burst"):
+                    probes["messages_in_one_burst"] = probes.get("messages_in_one_burst", 0) + 1
+                else:
+                    sim.settle()
                 seen_msg = True
                 continue
             sim.settle()
